@@ -922,8 +922,11 @@ def classify(ctx, spec, infos, impl):
 
 
 def run(ctx):
-    ctx.build_with_translator(FILES, extra_files=['C07R_Model.v', 'C07R_Proofs.v', 'C07R_Properties.v'],
-                              extra_obligation_files=['C07R_Properties.v'])   # shape parameters over R
+    from . import c16e
+    # C07R: shape parameters over R; C16E: the per-aperture statistics (median, mode, std/var, mad_std, biweight …)
+    # as functions of the proved value list, through the C11E / C11S estimator and sigma-clip models
+    ctx.build_with_translator(FILES, extra_files=['C07R_Model.v', 'C07R_Proofs.v', 'C07R_Properties.v'] + c16e.COQ_FILES,
+                              extra_obligation_files=['C07R_Properties.v'] + c16e.OBLIGATION_FILES)
     ctx.cov['rule'] = (
         'random images 1..10 px a side on the 1/8 lattice (integers, dyadics, ramps, sparse, blobs, outliers, '
         'NaN/inf) x six pixel aperture classes and their sky forms through a TAN WCS x 1..4 positions '
@@ -1035,6 +1038,8 @@ def run(ctx):
         ctx.support('arbitrary_double_images_python_oracles', 1)
     for name, cnt in sorted(counts.items()):
         ctx.support(name + ' (positions)', cnt)
+    # statistics of the real ApertureStats against C16E_Model (own PRNG)
+    c16e.run_statistics_correspondence(ctx, 150 if ctx.tier == 'quick' else 1500)
 
 
 def replay(obj):
